@@ -227,3 +227,8 @@ M("c20-twin-bounds-check-weaker", "C20", "benign", (H, "        if oi2 + no2 > n
 M("c20-twin-sd-framing-guard-weaker", "C20", "benign", (H, "        if len(rest_buf) < entries_length + 4:", "        if len(rest_buf) < entries_length:"))
 M("c20-twin-length-guard-stricter", "C20", "benign", (H, "        if size < 8:", "        if size <= 8:"))
 M("c05-twin-found-predicate", "C05", "benign", (S, "        return any(service.matches_service(s) for s in self.found_services.entries())", "        return any(s.matches_offer(service.create_offer_entry()) for s in self.found_services.entries())"))
+
+# the collection deadline matters to C15 (and C12's 'in time'), not to exactly-once answers / stop-offers
+M("c15-twin-for-c10-c11-timer-doubled", "C10,C11", "benign", (S, "            timeout, self._handle_timeout\n        )", "            timeout * 2, self._handle_timeout\n        )"))
+M("c15-collected-list-filtered", "C15,C10,C11,C12", "break", (S, "        queue.append(entry)\n", "        queue.data[:] = [e for e in queue.data if e.service_id != entry.service_id or e.sd_type != entry.sd_type]\n        queue.append(entry)\n"))
+M("c15-append-rearms-timer", "C15,C12", "break", (S, "        self.data.append(datum)\n", "        self._handle.cancel()\n        self._handle = asyncio.get_event_loop().call_later(0.005, self._handle_timeout)\n        self.data.append(datum)\n"))
